@@ -36,29 +36,28 @@ struct SamplerState {
 type Sampler = Box<dyn Fn(&SpanCtxt) -> bool + Send + Sync>;
 type Flt = And<TraceparentFilter<Sampler>, Option<InSampledTraceFilter>>;
 type Cx = TraceparentCtxt<ThreadLocalCtxt>;
-type Rt = Runtime<RecEmitter, Flt, Cx, CounterClock, CounterRng>;
-type F0 = Frame<&'static Cx>;
+type F0<R> = Frame<&'static <R as RtT>::C>;
 
-trait GuardObj: Send {
+trait GuardObj<R: RtT>: Send {
     fn start_it(&mut self);
     /// Complete the span inside its frame: by drop, `complete()`, or `complete_with(..)`.
-    fn finish(self: Box<Self>, how: u64, m: &'static M18);
+    fn finish(self: Box<Self>, how: u64, m: &'static M18<R>);
 }
 
-impl<'a, T: emit::Clock + Send, P: emit::Props + Send, C: emit::span::completion::Completion + Send> GuardObj
+impl<'a, R: RtT, T: emit::Clock + Send, P: emit::Props + Send, C: emit::span::completion::Completion + Send> GuardObj<R>
     for SpanGuard<'a, T, P, C>
 {
     fn start_it(&mut self) {
         self.start()
     }
-    fn finish(self: Box<Self>, how: u64, m: &'static M18) {
+    fn finish(self: Box<Self>, how: u64, m: &'static M18<R>) {
         match how % 3 {
             0 => drop(self),
             1 => {
                 (*self).complete();
             }
             _ => {
-                (*self).complete_with(emit::span::completion::default(m.rt.emitter(), m.rt.ctxt()));
+                (*self).complete_with(emit::span::completion::default(m.rt.get().emitter(), m.rt.get().ctxt()));
             }
         }
     }
@@ -80,35 +79,36 @@ fn either(r: Result<Leave, LeaveErr>) -> Leave {
     }
 }
 
-type Guard = Box<dyn GuardObj>;
+type Guard<R> = Box<dyn GuardObj<R>>;
 
-enum TFrame {
-    Plain(F0),
-    Span(F0, Guard),
+enum TFrame<R: RtT> {
+    Plain(F0<R>),
+    Span(F0<R>, Guard<R>),
     Hdr(Frame<TraceparentCtxt>),
 }
 
 type Task = Pin<Box<dyn Future<Output = Leave> + Send>>;
 
-struct M18 {
-    rt: Rt,
+struct M18<R: RtT> {
+    rt: &'static R,
+    form: &'static str,
     rows: RecEmitter,
     sampler: Arc<SamplerState>,
-    frames: Mutex<HashMap<u64, TFrame>>,
+    frames: Mutex<HashMap<u64, TFrame<R>>>,
     tasks: Mutex<HashMap<u64, Task>>,
     salt: AtomicU64,
 }
 
 // ---------------------------------------------------------------- macro fixtures
 
-#[emit::span(rt: m.rt, "sync fn span")]
-fn form_sync_fn(m: &'static M18) -> Leave {
+#[emit::span(rt: m.rt.get(), "sync fn span")]
+fn form_sync_fn<R: RtT>(m: &'static M18<R>) -> Leave {
     reply_ok();
     run_loop(m)
 }
 
-#[emit::warn_span(rt: m.rt, guard: span, "sync fn span with guard")]
-fn form_sync_guard(m: &'static M18) -> Leave {
+#[emit::warn_span(rt: m.rt.get(), guard: span, "sync fn span with guard")]
+fn form_sync_guard<R: RtT>(m: &'static M18<R>) -> Leave {
     reply_ok();
     let l = run_loop(m);
     span.complete();
@@ -116,45 +116,45 @@ fn form_sync_guard(m: &'static M18) -> Leave {
 }
 
 // completion through `complete_with` (the expansion of ok_lvl / err_lvl, or by hand)
-#[emit::span(rt: m.rt, ok_lvl: emit::Level::Debug, "sync fn span with Ok result")]
-fn form_sync_result_ok(m: &'static M18) -> Result<Leave, LeaveErr> {
+#[emit::span(rt: m.rt.get(), ok_lvl: emit::Level::Debug, "sync fn span with Ok result")]
+fn form_sync_result_ok<R: RtT>(m: &'static M18<R>) -> Result<Leave, LeaveErr> {
     reply_ok();
     Ok(run_loop(m))
 }
 
-#[emit::span(rt: m.rt, err_lvl: emit::Level::Warn, "sync fn span with Err result")]
-fn form_sync_result_err(m: &'static M18) -> Result<Leave, LeaveErr> {
+#[emit::span(rt: m.rt.get(), err_lvl: emit::Level::Warn, "sync fn span with Err result")]
+fn form_sync_result_err<R: RtT>(m: &'static M18<R>) -> Result<Leave, LeaveErr> {
     reply_ok();
     Err(LeaveErr(run_loop(m)))
 }
 
-#[emit::span(rt: m.rt, guard: span, "sync fn span with guard and complete_with")]
-fn form_sync_guard_with(m: &'static M18) -> Leave {
+#[emit::span(rt: m.rt.get(), guard: span, "sync fn span with guard and complete_with")]
+fn form_sync_guard_with<R: RtT>(m: &'static M18<R>) -> Leave {
     reply_ok();
     let l = run_loop(m);
-    span.complete_with(emit::span::completion::default(m.rt.emitter(), m.rt.ctxt()));
+    span.complete_with(emit::span::completion::default(m.rt.get().emitter(), m.rt.get().ctxt()));
     l
 }
 
-#[emit::span(rt: m.rt, ok_lvl: emit::Level::Info, "async fn span with Ok result")]
-async fn form_async_result_ok(m: &'static M18) -> Result<Leave, LeaveErr> {
+#[emit::span(rt: m.rt.get(), ok_lvl: emit::Level::Info, "async fn span with Ok result")]
+async fn form_async_result_ok<R: RtT>(m: &'static M18<R>) -> Result<Leave, LeaveErr> {
     Ok(ScriptFuture { m }.await)
 }
 
-#[emit::span(rt: m.rt, err_lvl: emit::Level::Error, "async fn span with Err result")]
-async fn form_async_result_err(m: &'static M18) -> Result<Leave, LeaveErr> {
+#[emit::span(rt: m.rt.get(), err_lvl: emit::Level::Error, "async fn span with Err result")]
+async fn form_async_result_err<R: RtT>(m: &'static M18<R>) -> Result<Leave, LeaveErr> {
     Err(LeaveErr(ScriptFuture { m }.await))
 }
 
-#[emit::span(rt: m.rt, guard: span, "async fn span with guard and complete_with")]
-async fn form_async_guard_with(m: &'static M18) -> Leave {
+#[emit::span(rt: m.rt.get(), guard: span, "async fn span with guard and complete_with")]
+async fn form_async_guard_with<R: RtT>(m: &'static M18<R>) -> Leave {
     let l = ScriptFuture { m }.await;
-    span.complete_with(emit::span::completion::default(m.rt.emitter(), m.rt.ctxt()));
+    span.complete_with(emit::span::completion::default(m.rt.get().emitter(), m.rt.get().ctxt()));
     l
 }
 
-fn form_new_span_call(m: &'static M18) -> Leave {
-    let (mut guard, frame) = emit::new_span!(rt: m.rt, "new_span then call");
+fn form_new_span_call<R: RtT>(m: &'static M18<R>) -> Leave {
+    let (mut guard, frame) = emit::new_span!(rt: m.rt.get(), "new_span then call");
     frame.call(move || {
         guard.start();
         reply_ok();
@@ -162,13 +162,13 @@ fn form_new_span_call(m: &'static M18) -> Leave {
     })
 }
 
-fn manual(m: &'static M18, name: &'static str) -> (SpanGuard<'static, &'static CounterClock, emit::Empty, emit::span::completion::Default<'static, &'static RecEmitter, &'static Cx>>, F0) {
+fn manual<R: RtT>(m: &'static M18<R>, name: &'static str) -> (SpanGuard<'static, &'static R::T, emit::Empty, emit::span::completion::Default<'static, &'static R::E, &'static R::C>>, F0<R>) {
     SpanGuard::new(
-        m.rt.filter(),
-        m.rt.ctxt(),
-        m.rt.clock(),
-        m.rt.rng(),
-        emit::span::completion::default(m.rt.emitter(), m.rt.ctxt()),
+        m.rt.get().filter(),
+        m.rt.get().ctxt(),
+        m.rt.get().clock(),
+        m.rt.get().rng(),
+        emit::span::completion::default(m.rt.get().emitter(), m.rt.get().ctxt()),
         emit::Empty,
         emit::Path::new_raw("vh_span"),
         name,
@@ -176,7 +176,7 @@ fn manual(m: &'static M18, name: &'static str) -> (SpanGuard<'static, &'static C
     )
 }
 
-fn form_manual_enter(m: &'static M18) -> Leave {
+fn form_manual_enter<R: RtT>(m: &'static M18<R>) -> Leave {
     let (guard, mut frame) = manual(m, "SpanGuard::new then enter");
     let _entered = frame.enter();
     // declared after the EnterGuard: dropped before it, also when a panic unwinds through here
@@ -188,45 +188,19 @@ fn form_manual_enter(m: &'static M18) -> Leave {
     l
 }
 
-#[emit::span(rt: m.rt, "async fn span")]
-async fn form_async_fn(m: &'static M18) -> Leave {
+#[emit::span(rt: m.rt.get(), "async fn span")]
+async fn form_async_fn<R: RtT>(m: &'static M18<R>) -> Leave {
     ScriptFuture { m }.await
 }
 
 // ---------------------------------------------------------------- machine
 
-impl M18 {
-    fn new(in_sampled: bool) -> M18 {
-        let rows = RecEmitter::default();
-        let sampler = Arc::new(SamplerState::default());
-        let s2 = sampler.clone();
-        let f: Sampler = Box::new(move |c: &SpanCtxt| {
-            s2.calls.lock().unwrap().push((
-                c.trace_id().map(|t| format!("t:{t}")),
-                c.span_id().map(|s| format!("s:{s}")),
-                c.span_parent().map(|s| format!("s:{s}")),
-            ));
-            s2.decision.load(Ordering::Relaxed)
-        });
-        let filter = TraceparentFilter::new_with_sampler(f)
-            .and_when(if in_sampled { Some(in_sampled_trace_filter(true)) } else { None });
-        M18 {
-            rt: Runtime::build(
-                rows.clone(),
-                filter,
-                TraceparentCtxt::new(ThreadLocalCtxt::new()),
-                CounterClock(AtomicU64::new(0)),
-                CounterRng(AtomicU64::new(1)),
-            ),
-            rows,
-            sampler,
-            frames: Mutex::new(HashMap::new()),
-            tasks: Mutex::new(HashMap::new()),
-            salt: AtomicU64::new(0),
-        }
+impl<R: RtT> M18<R> {
+    fn new(form: &'static str, rt: &'static R, rows: RecEmitter, sampler: Arc<SamplerState>) -> M18<R> {
+        M18 { rt, form, rows, sampler, frames: Mutex::new(HashMap::new()), tasks: Mutex::new(HashMap::new()), salt: AtomicU64::new(0) }
     }
 
-    fn take_frame(&self, f: u64) -> TFrame {
+    fn take_frame(&self, f: u64) -> TFrame<R> {
         self.frames.lock().unwrap().remove(&f).unwrap_or_else(|| tool_error(&format!("frame {f} is not idle")))
     }
 
@@ -265,7 +239,7 @@ fn header_of(h: &Value, salt: u64) -> Traceparent {
     Traceparent::try_from_str(&text).unwrap_or_else(|e| tool_error(&format!("header {text} does not parse: {e}")))
 }
 
-impl Machine for M18 {
+impl<R: RtT> Machine for M18<R> {
     fn exec(&'static self, step: &Value) -> Option<Leave> {
         let op = step["op"].as_str().unwrap_or("");
         let salt = self.salt.load(Ordering::Relaxed);
@@ -289,7 +263,7 @@ impl Machine for M18 {
                 let f = step["f"].as_u64().unwrap();
                 let i = step["i"].as_u64().unwrap();
                 let fr = if (salt + i) % 2 == 0 {
-                    let (guard, frame) = emit::new_span!(rt: self.rt, "new_span, entered later");
+                    let (guard, frame) = emit::new_span!(rt: self.rt.get(), "new_span, entered later");
                     TFrame::Span(frame, Box::new(guard))
                 } else {
                     let (guard, frame) = manual(self, "SpanGuard::new, entered later");
@@ -309,7 +283,7 @@ impl Machine for M18 {
             }
             "current" => {
                 let f = step["f"].as_u64().unwrap();
-                let frame = Frame::current(self.rt.ctxt());
+                let frame = Frame::current(self.rt.get().ctxt());
                 self.frames.lock().unwrap().insert(f, TFrame::Plain(frame));
                 reply_ok();
                 None
@@ -364,7 +338,7 @@ impl Machine for M18 {
             "spawn" => {
                 let f = step["f"].as_u64().unwrap();
                 let k = step["k"].as_u64().unwrap();
-                let m: &'static M18 = self;
+                let m: &'static M18<R> = self;
                 let task: Task = match self.take_frame(f) {
                     TFrame::Plain(frame) => Box::pin(frame.in_future(ScriptFuture { m })),
                     TFrame::Hdr(frame) => Box::pin(frame.in_future(ScriptFuture { m })),
@@ -415,7 +389,7 @@ impl Machine for M18 {
                 }
             }
             "event" => {
-                emit::emit!(rt: self.rt, "event");
+                emit::emit!(rt: self.rt.get(), "event");
                 reply_ok();
                 None
             }
@@ -431,7 +405,7 @@ impl Machine for M18 {
         let (tp2, _state) = emit_traceparent::current();
         let text = tp.to_string();
         let back = Traceparent::try_from_str(&text).ok();
-        let c = SpanCtxt::current(self.rt.ctxt());
+        let c = SpanCtxt::current(self.rt.get().ctxt());
         json!({
             "tr": tp.trace_id().map(|t| format!("t:{t}")),
             "sp": tp.span_id().map(|s| format!("s:{s}")),
@@ -447,31 +421,31 @@ fn opt(v: &Value) -> Option<String> {
     v.as_str().map(|s| s.to_string())
 }
 
-fn main() {
-    let args: Vec<String> = std::env::args().collect();
-    if args.len() < 4 {
-        tool_error("usage: c18_tp <cases.ndjson> <in_sampled: true|false> <report.json>");
+struct Runner<R: RtT> {
+    m: &'static M18<R>,
+    bij: Bij,
+}
+
+impl<R: RtT> CaseRunner for Runner<R> {
+    fn form(&self) -> &'static str {
+        self.m.form
     }
-    let (cases, in_sampled, out) = (args[1].clone(), args[2].to_lowercase() == "true", args[3].clone());
-    quiet_panics();
-    let rep = drive(
-        &cases,
-        workers_from_env(),
-        move |_| -> (&'static M18, Bij) { (Box::leak(Box::new(M18::new(in_sampled))), Bij::default()) },
-        |st, no, case| {
-            let m: &'static M18 = st.0;
-            let bij = &mut st.1;
-            bij.clear();
-            m.salt.store(no as u64, Ordering::Relaxed);
-            m.frames.lock().unwrap().clear();
-            m.tasks.lock().unwrap().clear();
-            m.rows.0.lock().unwrap().clear();
-            m.sampler.calls.lock().unwrap().clear();
-            let steps = case["steps"].as_array().unwrap_or_else(|| tool_error("case without steps"));
-            let nthreads = steps[0]["exp"].as_array().map(|a| a.len()).unwrap_or(1);
-            let mut consumed = 0usize;
-            let mut sampled_before = 0usize;
-            let o = run_case(m, nthreads, steps, |_, step, rep, obs| {
+
+    fn run(&mut self, no: usize, case: &Value) -> Outcome {
+        let m: &'static M18<R> = self.m;
+        let form = m.form;
+        let bij = &mut self.bij;
+        bij.clear();
+        m.salt.store(no as u64, Ordering::Relaxed);
+        m.frames.lock().unwrap().clear();
+        m.tasks.lock().unwrap().clear();
+        m.rows.0.lock().unwrap().clear();
+        m.sampler.calls.lock().unwrap().clear();
+        let steps = case["steps"].as_array().unwrap_or_else(|| tool_error("case without steps"));
+        let nthreads = steps[0]["exp"].as_array().map(|a| a.len()).unwrap_or(1);
+        let mut consumed = 0usize;
+        let mut sampled_before = 0usize;
+        let mut o = run_case(m, nthreads, steps, |_, step, rep, obs| {
                 if step["op"] == "panic" {
                     if rep["panicked"].as_str() != Some(SCRIPTED_PANIC) {
                         return Some(json!({"what": "scripted panic was not the panic that arrived", "detail": rep}));
@@ -500,7 +474,7 @@ fn main() {
                     // it ran in this step: for span i, the root (no parent)
                     let i = step["i"].as_u64().unwrap_or(0);
                     let c = &calls[calls.len() - 1];
-                    if calls.len() != sampled_before + 1 || !unify_ids(bij, &json!([(2 * i).saturating_sub(1), 2 * i, 0]), &c.0, &c.1, &c.2) {
+                    if calls.len() != sampled_before + 1 || !unify_ids(bij, &json!([step["atr"].as_u64().unwrap_or((2 * i).saturating_sub(1)), 2 * i, 0]), &c.0, &c.1, &c.2) {
                         return Some(json!({"what": "sampler was not given the root span of the new trace (once)",
                             "detail": {"span": i, "calls": format!("{calls:?}"), "known": bij.dump()}}));
                     }
@@ -577,10 +551,87 @@ fn main() {
                     }
                 }
                 None
-            });
-            m.frames.lock().unwrap().clear();
-            m.tasks.lock().unwrap().clear();
-            o
+        });
+        if let Some(mm) = o.mismatch.as_mut() {
+            mm["form"] = json!(form);
+        }
+        m.frames.lock().unwrap().clear();
+        m.tasks.lock().unwrap().clear();
+        o
+    }
+}
+
+fn runner<R: RtT>(form: &'static str, rt: &'static R, rows: RecEmitter, sampler: Arc<SamplerState>) -> Box<dyn CaseRunner> {
+    Box::new(Runner { m: Box::leak(Box::new(M18::new(form, rt, rows, sampler))), bij: Bij::default() })
+}
+
+/// The context forms (spec constant CtxForms).
+fn build(form: &str, in_sampled: bool) -> Box<dyn CaseRunner> {
+    let rows = RecEmitter::default();
+    let sampler = Arc::new(SamplerState::default());
+    let s2 = sampler.clone();
+    let f: Sampler = Box::new(move |c: &SpanCtxt| {
+        s2.calls.lock().unwrap().push((
+            c.trace_id().map(|t| format!("t:{t}")),
+            c.span_id().map(|s| format!("s:{s}")),
+            c.span_parent().map(|s| format!("s:{s}")),
+        ));
+        s2.decision.load(Ordering::Relaxed)
+    });
+    let ins = if in_sampled { Some(in_sampled_trace_filter(true)) } else { None };
+    let clock = || CounterClock(AtomicU64::new(0));
+    let rng = || CounterRng(AtomicU64::new(1));
+    let cx: Cx = TraceparentCtxt::new(ThreadLocalCtxt::new());
+    fn leak<T>(v: T) -> &'static T {
+        Box::leak(Box::new(v))
+    }
+    if form == "ambient" {
+        // the type-erased runtime applications get from emit_traceparent::setup_with_sampler, in a fresh slot
+        let slot: &'static emit::runtime::AmbientSlot = leak(emit::runtime::AmbientSlot::new());
+        let _ = emit_traceparent::setup_with_sampler(f)
+            .and_emit_when(ins)
+            .emit_to(rows.clone())
+            .with_clock(clock())
+            .with_rng(rng())
+            .init_slot(slot);
+        let rt: &'static emit::runtime::AmbientRuntime<'static> = slot.get();
+        return runner("ambient", rt, rows, sampler);
+    }
+    let filter: Flt = TraceparentFilter::new_with_sampler(f).and_when(ins);
+    match form {
+        "value" => runner("value", leak(Runtime::build(rows.clone(), filter, cx, clock(), rng())), rows, sampler),
+        "ref" => runner("ref", leak(Runtime::build(rows.clone(), filter, leak(cx), clock(), rng())), rows, sampler),
+        "option" => runner("option", leak(Runtime::build(rows.clone(), filter, Some(cx), clock(), rng())), rows, sampler),
+        "box" => runner("box", leak(Runtime::build(rows.clone(), filter, Box::new(cx), clock(), rng())), rows, sampler),
+        "arc" => runner("arc", leak(Runtime::build(rows.clone(), filter, Arc::new(cx), clock(), rng())), rows, sampler),
+        "dyn" => runner(
+            "dyn",
+            leak(Runtime::build(rows.clone(), filter, Box::new(cx) as Box<dyn emit_core::ctxt::ErasedCtxt + Send + Sync>, clock(), rng())),
+            rows,
+            sampler,
+        ),
+        other => tool_error(&format!("unknown context form {other}")),
+    }
+}
+
+fn main() {
+    let args: Vec<String> = std::env::args().collect();
+    if args.len() < 5 {
+        tool_error("usage: c18_tp <cases.ndjson> <in_sampled: true|false> <forms json> <report.json>");
+    }
+    let (cases, in_sampled, forms, out) = (args[1].clone(), args[2].to_lowercase() == "true", args[3].clone(), args[4].clone());
+    quiet_panics();
+    let forms: Vec<String> = serde_json::from_str(&forms).unwrap_or_else(|e| tool_error(&format!("forms: {e}")));
+    if forms.is_empty() {
+        tool_error("no context forms");
+    }
+    let rep = drive(
+        &cases,
+        workers_from_env(),
+        move |_| -> Vec<Box<dyn CaseRunner>> { forms.iter().map(|f| build(f, in_sampled)).collect() },
+        |runners, no, case| {
+            let n = runners.len();
+            runners[no % n].run(no, case)
         },
     );
     rep.write(&out);
